@@ -54,6 +54,15 @@ def wrapper_cases(draw, tier='quick'):
     c['maxiter'] = draw(st.sampled_from([0, 1, 1, 2, 3, 5, 8, 12]))
     c['maxfun'] = draw(st.one_of(st.none(), st.integers(1, 80)))
     c['tight_tol'] = draw(st.booleans())       # very small ftol/xtol: the run goes on until a limit stops it
+    if draw(st.integers(0, 7)) == 0:
+        # limits left at their defaults (fmin: 200 x dim iterations and evaluations) on an objective that is unbounded
+        # below, so that the run can only end on a default limit
+        c['wrapper'] = 'fmin'; c['dim'] = dim = draw(st.integers(1, 2))
+        c['cost'] = dict(fam='lin', a=[0.0] * dim, w=[draw(st.sampled_from([1.0, -1.0, 0.5])) for _ in range(dim)], ret='float')
+        c['bounds'] = None; c.pop('constraint', None); c.pop('penalty', None); c.pop('npop', None)
+        c['x0'] = [draw(st.sampled_from([0.0, 1.0, -2.5])) for _ in range(dim)]
+        c['maxiter'], c['maxfun'] = draw(st.sampled_from([(None, None), (None, 10 ** 6), (10 ** 6, None), (None, 150), (90, None)]))
+        c['defaults'] = True
     return c
 
 
@@ -84,11 +93,16 @@ def run_wrapper(case, ctx):
     x, fval, iters, funcalls, warnflag = res[:5]
     calls = cost.ncalls(); its = max(0, len(cbs) - 1)
     mi = case['maxiter']; mf = case['maxfun']
+    if case.get('defaults'):
+        # documented defaults of fmin: maxiter = maxfun = 200 x dim
+        mi = 200 * dim if mi is None else mi
+        mf = 200 * dim if mf is None else mf
+        ctx.label('limits-left-at-default')
     hit_fun = mf is not None and calls >= mf
     hit_iter = its >= mi
     det = lambda: dict(wrapper=w, warnflag=int(warnflag), real_calls=calls, iterations=its, reported=[int(iters), int(funcalls)],
                        maxiter=mi, maxfun=mf)
-    ctx.label('wrapper:' + w, 'warnflag:%d' % int(warnflag), 'maxfun:' + ('none' if mf is None else 'given'))
+    ctx.label('wrapper:' + w, 'warnflag:%d' % int(warnflag), 'maxfun:' + ('none' if case['maxfun'] is None else 'given'))
     # the flag names a condition that is true of the final state (judged from the harness's own counts)
     if int(warnflag) == 1:
         ctx.expect(hit_fun, 'C05.warnflag', det)
